@@ -83,6 +83,7 @@ pub struct Resources {
     pub opens: u64,
     pub pipe_calls: u64,
     pub file_writes: u64,
+    pub children_unreaped: u64,
 }
 
 pub fn sample_resources<SE: ShellExtensions>(shell: &Shell<SE>) -> Resources {
@@ -101,7 +102,8 @@ pub fn sample_resources<SE: ShellExtensions>(shell: &Shell<SE>) -> Resources {
     });
     let cs = serde_json::to_value(shell.call_stack()).unwrap_or_default();
     let traps_active = cs.get("active_trap_signals").and_then(|s| s.as_array()).map_or(0, |a| a.len());
-    let (out_len, err_len, opens, pipe_calls, file_writes) = world::with(|w| (w.sinks[1].len(), w.sinks[2].len(), w.opens, w.pipe_calls, w.file_writes));
+    let (out_len, err_len, opens, pipe_calls, file_writes, children_unreaped) =
+        world::with(|w| (w.sinks[1].len(), w.sinks[2].len(), w.opens, w.pipe_calls, w.file_writes, w.children_spawned - w.children_reaped));
     Resources {
         scopes,
         frames: shell.call_stack().depth(),
@@ -118,6 +120,7 @@ pub fn sample_resources<SE: ShellExtensions>(shell: &Shell<SE>) -> Resources {
         opens,
         pipe_calls,
         file_writes,
+        children_unreaped,
     }
 }
 
@@ -227,6 +230,9 @@ pub fn install_hooks() {
         pipe: crate::streams::sim_pipe,
         io_point: world::io_point,
         open_point: world::open_point,
+        sim_spawn: crate::procs::sim_spawn,
+        before_process_wait: world::before_process_wait,
+        before_process_poll: world::before_process_poll,
     });
     // silence SimAbort unwinds; keep real panics visible
     let default = std::panic::take_hook();
@@ -265,6 +271,7 @@ pub async fn build_shell(spec: &RunSpec, dir: &PathBuf, stdin: &SharedStdin) -> 
         .read_commands_from_stdin(matches!(spec.front_end, FrontEnd::Stdin))
         .enable_options(spec.set_options.clone())
         .enable_shopt_options(spec.shopt_options.clone());
+    b = b.var("PATH", brush_core::ShellVariable::new(crate::procs::bin_dir().to_string_lossy().to_string()));
     if spec.front_end == FrontEnd::Eval {
         b = b.var("PROG", brush_core::ShellVariable::new(spec.script.clone()));
     }
@@ -332,6 +339,7 @@ impl brush_shell::entry::VerifSetup for EntrySetup {
         shell.replace_open_files(fds.into_iter());
         let _ = shell.set_working_dir(&self.dir);
         let _ = shell.env_mut().unset("OLDPWD");
+        let _ = shell.env_mut().set_global("PATH", brush_core::ShellVariable::new(crate::procs::bin_dir().to_string_lossy().to_string()));
         if let Some(p) = self.prog {
             let _ = shell.env_mut().set_global("PROG", brush_core::ShellVariable::new(p));
         }
